@@ -298,6 +298,11 @@ def write_evidence(mod, prop, tier, seed, m, t0, violations, known_hits, note=No
     if m.get("extra_stats"):
         ev["coverage"].update(m["extra_stats"])
         ev["coverage"]["evaluations"] += int(m["extra_stats"].get("fuzz_executions", 0))
+    if hasattr(mod, "extra_evidence"):
+        try:
+            ev["coverage"].update(mod.extra_evidence())
+        except Exception as e:  # noqa: BLE001 - reporting only
+            ev["coverage"]["extra_evidence_error"] = repr(e)
     if hasattr(mod, "EXHAUSTIVE_NOTE"):
         ev["coverage"]["exhaustive_subdomains"] = mod.EXHAUSTIVE_NOTE
     if note:
